@@ -645,6 +645,7 @@ SEED_OPS = [
     ("lit_recv_pad_end", "'lit'.padEnd(a, b) + a.padEnd(3)"), ("lit_recv_replace_all", "'lit'.replaceAll(a, 'b') + 'lit'.replaceAll('x', 'y')"),
     ("escaped_method", "a.\\u0073ubstring(1)"), ("escaped_method_opt", "a?.\\u{74}rim()"), ("proto_mid_path", "K.prototype.name.trim() + o.prototype.x?.trim()"),
     ("same_path_twice", "o.x + o.x"), ("same_path_call", "o.x.concat(o.x, o.x)"), ("tpl_no_subst", "`use strict` + a"),
+    ("tpl_nested_plain", "`${a}${`-`}`"), ("tpl_nested_plain_ops", "`${`x`}${a + b}${c.trim()}`"), ("tpl_nested_plain_only", "`${`x`}` + a"),
     ("chain_callee", "(a?.trim().f)(b)"), ("chain_tag", "(a?.trim().f)`x${b}`"), ("chain_callee_unhooked", "(a?.g(b?.trim()).f)(c)"),
     ("lit_plus_undefined", "'a' + undefined + c"), ("plus_undefined", "'Hello ' + undefined"), ("tpl_undefined", "`${'a' + undefined}${c}`"),
     ("proto_call_nested", "String.prototype.concat.call(a.trim(), b.trim())"), ("proto_apply_nested", "String.prototype.concat.apply(a.trim(), [b.trim(), c + d])"),
